@@ -536,8 +536,11 @@ func crashCampaign(prop string, r *Result, quick, thorough int, double bool) {
 	per := (n + workers - 1) / workers
 	parallel(workers, workers, func(w int) {
 		rng := newRand(uint64(9000 + w))
-		for i := w*per - 1; i < (w+1)*per && i < n; i++ {
+		for i := w*per - 2; i < (w+1)*per && i < n; i++ {
 			if i < 0 && w != 0 {
+				continue
+			}
+			if i < w*per && i >= 0 {
 				continue
 			}
 			g := &engineGen{r: rng, prefix: fmt.Sprintf("k%d.", i), MaxBlocks: 2, MaxSeqs: 3, MaxActs: 2, PGroup: 0.3, PFail: 0.15, PCheckBad: 0.1,
@@ -549,7 +552,15 @@ func crashCampaign(prop string, r *Result, quick, thorough int, double bool) {
 				g.ContMode, g.PGroup = "fail0", 0.5 // continuous checks whose (initial) run fails
 			}
 			ps := g.plan()
-			if i < 0 {
+			if i == -2 {
+				// stored witness of fixed defect D27 (05cb03a): an action in flight at the first crash, the second crash inside
+				// Recovery's write of the repaired plan; every (cut, cut2) pair is replayed
+				ps = &PlanSpec{Blocks: []BlockSpec{{Conc: 1, Tol: 2, Pre: &GroupSpec{Actions: []ActSpec{{Tag: "d27.pre", Retries: 2}}},
+					Seqs: []SeqSpec{{Actions: []ActSpec{{Tag: "d27.a", Retries: 2, Script: []Outcome{{Resp: "good", Err: "permanent"}}}}},
+						{Actions: []ActSpec{{Tag: "d27.b"}}}}}}}
+				r.count("corpus")
+			}
+			if i == -1 {
 				// stored witness of known finding D21: a failing block, plan-level DeferredChecks; every cut is replayed
 				ps = &PlanSpec{Deferred: &GroupSpec{Actions: []ActSpec{{Tag: "d21.dfr"}}},
 					Blocks: []BlockSpec{{Conc: 1, Deferred: &GroupSpec{Actions: []ActSpec{{Tag: "d21.bdfr"}}},
@@ -582,9 +593,9 @@ func crashCampaign(prop string, r *Result, quick, thorough int, double bool) {
 					r.sample(map[string]any{"spec": ps, "cut": k, "writes": nw, "resumed": rc.resumed})
 				}
 				// double crash on small runs
-				if double && rc.res != nil && len(rc.recs) > 0 && (cfg.Tier == "thorough" || (k%5 == 2 && len(rc.recs) < 40)) {
+				if double && rc.res != nil && len(rc.recs) > 0 && (cfg.Tier == "thorough" || i == -2 || (k%5 == 2 && len(rc.recs) < 40)) {
 					step := 1
-					if cfg.Tier == "quick" {
+					if cfg.Tier == "quick" && i != -2 {
 						step = 3
 					}
 					for j := 1; j < len(rc.recs); j += step {
